@@ -138,7 +138,7 @@ Lemma payload_nonempty v typ : payload_of v typ <> [].
 Proof. unfold payload_of. destruct v; discriminate. Qed.
 
 (* ================================================================ B. round trips *)
-Definition eff_ts (ts : pystr) (now : Z) : pystr := match ts with [] => str_of_Z now | _ => ts end.
+Definition eff_ts (ts : pystr) (now : Z) : pystr := match ts with [] => dec_of_Z now | _ => ts end.
 Definition nonempty_content (v typ : pystr) : bool := match v, typ with [], [] => false | _, _ => true end.
 
 Lemma make_cookie_eq h v typ ts now r :
